@@ -116,7 +116,16 @@ type File struct {
 	ino    uint64
 	file   int
 	closed bool
+	std    int       // 1 / 2: the value os.Stdout / os.Stderr had when the expression was evaluated
+	w      io.Writer // ... in a simulation: the stream that stood for it at that moment
 }
+
+// StdoutF / StderrF replace the EXPRESSIONS os.Stdout / os.Stderr in instrumented code: they yield
+// the stream the variable holds now, as a value of the file type (it can be kept in a *File
+// variable, and then keeps pointing at that stream when the program re-assigns os.Stdout) and as
+// a writer.
+func StdoutF() *File { return &File{File: os.Stdout, std: 1, w: StdoutW()} }
+func StderrF() *File { return &File{File: os.Stderr, std: 2, w: StderrW()} }
 
 //go:norace
 func fsPoint(op, path string, n int) (t *Task, errno, short int, dead bool) {
@@ -210,6 +219,9 @@ func (f *File) Write(p []byte) (int, error) {
 	if f == nil {
 		return 0, os.ErrInvalid // like (*os.File)(nil).Write
 	}
+	if f.std != 0 {
+		return f.w.Write(p)
+	}
 	t, errno, short, dead := fsPoint("write", f.File.Name(), len(p))
 	if t == nil {
 		return f.File.Write(p)
@@ -263,6 +275,9 @@ type onlyWriter struct{ io.Writer }
 func (f *File) Close() error {
 	if f == nil {
 		return os.ErrInvalid // like (*os.File)(nil).Close
+	}
+	if f.std != 0 && cur != nil {
+		return nil // the simulation keeps the process's real streams open
 	}
 	t, errno, _, dead := fsPoint("close", f.File.Name(), 0)
 	if t == nil {
